@@ -50,6 +50,14 @@ fn run_unit(unit: &Unit, r: &mut Rng, ctx: &mut Ctx) {
             0 => { let k = r.range(0, 40); Dec::new(gen::pow10(k as u64) * if r.bool() { 1 } else { -1 }, k) }
             1 => Dec::new(gen::pow10(r.below(60)), r.range(-10_000, 10_000)),
             2 => Dec::new(BigInt::zero(), r.range(-10_000, 10_000)),
+            3 => {
+                // 10^s + m * 2^(32 j): equal to 1.00..0 in its low 32-bit words only
+                let s = r.range(0, 25);
+                let j = 1 + r.below(4) as usize;
+                let m = BigInt::from(1 + r.below(1000));
+                let n = gen::pow10(s as u64) + (m << (32 * j));
+                Dec::new(if r.chance(1, 4) { -n } else { n }, s)
+            }
             _ => gen::dec(r, lm, 10_000),
         };
         let b = gen::partner(r, &a, lm, 10_000, 10_000);
